@@ -270,7 +270,8 @@ func init() {
 			"service": {kind: "multieq", fields: []string{"PeerName", "ServiceName"}, lowers: []bool{true, true}, argFields: []string{"PeerName", "Value"}}}})
 	addTable(&tableSpec{name: "coordinates", rowPkg: structsPkg, rowType: "Coordinate", keyFields: []string{"Node", "Segment"}, keyLower: []bool{true, true},
 		indexes: map[string]indexSpec{"node": {kind: "multieq", fields: []string{"Node"}, lowers: []bool{true}, argFields: []string{"Value"}}}})
-	addTable(&tableSpec{name: "peering", rowPkg: consulMod + "/proto/private/pbpeering", rowType: "Peering", keyField: "ID", lower: true})
+	addTable(&tableSpec{name: "peering", rowPkg: consulMod + "/proto/private/pbpeering", rowType: "Peering", keyField: "ID", lower: true,
+		indexes: map[string]indexSpec{"name": {kind: "all"}}})
 	addTable(&tableSpec{name: "peering-trust-bundles", rowPkg: consulMod + "/proto/private/pbpeering", rowType: "PeeringTrustBundle", keyField: "PeerName", lower: true})
 	addTable(&tableSpec{name: "config-entries", ifaceRow: true, ifacePkg: structsPkg, ifaceType: "ConfigEntry", ifaceKeyMeth: []string{"GetKind", "GetName"},
 		keyLower: []bool{true, true}, altPkg: consulMod + "/agent/configentry", altType: "KindName", altFields: []string{"Kind", "Name"}})
@@ -1013,6 +1014,12 @@ func modelGet(f *Frame, st *State, e *ast.CallExpr, recv *Term, args []*Term, si
 			}
 			return And(cs...)
 		}
+	case "all":
+		// an index every row has (AllowMissing false), walked without arguments: every row, in that index's order
+		if _, _, ok := f.varArg(st, e, args[2], 2, 0); ok {
+			f.fail(e, "Get on index of kind all with an argument unsupported")
+		}
+		pred = func(w *State, row, key *Term) *Term { return TTrue }
 	default:
 		f.fail(e, "Get on index kind %s unsupported", ix.kind)
 	}
